@@ -33,9 +33,28 @@ def ev(e, env, resolver=None):
     if isinstance(e, ast.Attribute):
         if resolver is not None:
             v = resolver(e)
-            if isinstance(v, (int, bool)):
+            if isinstance(v, (int, bool)) or (isinstance(v, (dict, tuple)) and v.__class__ in (dict, tuple)):
                 return v
         raise NotPure('attribute %s' % ast.unparse(e))
+    if isinstance(e, ast.Tuple):
+        return tuple(ev(x, env, resolver) for x in e.elts)
+    if isinstance(e, ast.Subscript):
+        b = ev(e.value, env, resolver)
+        if isinstance(b, dict) and not isinstance(e.slice, ast.Slice):
+            try:
+                return b[ev(e.slice, env, resolver)]
+            except Exception as x:
+                raise NotPure('lookup: %s' % x)
+        if not isinstance(b, tuple):
+            raise NotPure('subscript of a non-tuple')
+        if isinstance(e.slice, ast.Slice):
+            lo, hi, st = [ev(x, env, resolver) if x is not None else None for x in (e.slice.lower, e.slice.upper, e.slice.step)]
+            return b[lo:hi:st]
+        i = ev(e.slice, env, resolver)
+        try:
+            return b[i]
+        except Exception as x:
+            raise NotPure(str(x))
     if isinstance(e, ast.BinOp):
         a, b = ev(e.left, env, resolver), ev(e.right, env, resolver)
         op = e.op
@@ -87,6 +106,16 @@ def ev(e, env, resolver=None):
     if isinstance(e, ast.Compare):
         left = ev(e.left, env, resolver)
         for op, r in zip(e.ops, e.comparators):
+            if isinstance(op, (ast.In, ast.NotIn)) and not isinstance(r, (ast.Tuple, ast.List, ast.Set)):
+                cont = ev(r, env, resolver)
+                if not isinstance(cont, (dict, tuple)):
+                    raise NotPure('membership in a non-container')
+                res = left in cont
+                if isinstance(op, ast.NotIn):
+                    res = not res
+                if not res:
+                    return False
+                continue
             if isinstance(op, (ast.In, ast.NotIn)) and isinstance(r, (ast.Tuple, ast.List, ast.Set)):
                 vals = [ev(x, env, resolver) for x in r.elts]
                 res = left in vals
@@ -129,6 +158,12 @@ def ev(e, env, resolver=None):
             return abs(vals[0])
         if e.func.id in ('max', 'min') and len(vals) >= 2:
             return max(vals) if e.func.id == 'max' else min(vals)
+    if isinstance(e, ast.Call) and isinstance(e.func, ast.Name) and e.func.id == 'divmod' and len(e.args) == 2 and not e.keywords:
+        a, b = ev(e.args[0], env, resolver), ev(e.args[1], env, resolver)
+        try:
+            return divmod(a, b)
+        except Exception as x:
+            raise NotPure(str(x))
     if isinstance(e, ast.Call) and isinstance(e.func, ast.Attribute) and e.func.attr == 'bit_length' and not e.args:
         v = ev(e.func.value, env, resolver)
         if isinstance(v, int):
